@@ -479,6 +479,8 @@ class Ctx:
                     self.known_seen.append((key, f.get("what", what)))
                 return False
         self.violations.append({"what": what, "replay": replay, "key": key})
+        if len(self.violations) <= 5:
+            self.log("property failure on the implementation: %s" % str(what)[:400])
         return True
 
     def correspondence_break(self, name, detail):
